@@ -66,7 +66,7 @@ def run(tier):
         a2 = judge(V, j["o"], r2, "opt:", xstats)
         if a1 and a2:
             agree += 1
-        if any(n[0] in ("app1", "app2", "papp", "mopt", "mopt3", "mpart", "mlit", "mlist", "mlistd", "mtup", "recf") for n in j["o"]["p"]):
+        if any(n[0] in ("app1", "app2", "papp", "mopt", "mopt3", "mpart", "mlit", "mlist", "mlistd", "mtup", "mrec", "recf") for n in j["o"]["p"]):
             nontrivial += 1
     rc = V.finish()
     states = sum(r.distinct for r in rs)
